@@ -87,7 +87,7 @@ var confs = []ConfSpec{
 	{Name: "hosts-as112", DNSSEC: "on", Hosts: true, EmptyZones: []string{"10.in-addr.arpa.", "168.192.IN-ADDR.ARPA.", "d.f.ip6.arpa."}},
 	{Name: "dnssec-off", DNSSEC: "off", NSID: "off"},
 	{Name: "ecs", DNSSEC: "on", ECS: true, Cookie: cookieSecret},
-	{Name: "all", DNSSEC: "on", Cookie: cookieSecret, NSID: "all-in-one", ClientRate: 24, EntryRate: 2, Prefetch: 40, Hosts: true},
+	{Name: "all", DNSSEC: "on", Cookie: cookieSecret, NSID: "all-in-one", ClientRate: 24, EntryRate: 2, Prefetch: 60, Hosts: true},
 }
 
 const hostsFileBody = `# c05 hosts
@@ -287,7 +287,7 @@ func genHistory(rng *rand.Rand, conf ConfSpec) ([]Op, []target) {
 	switch {
 	case conf.Prefetch > 0:
 		// everything admitted so far becomes prefetch-due
-		hist = append(hist, Op{Kind: "adv", Secs: 160 + rng.IntN(100)})
+		hist = append(hist, Op{Kind: "adv", Secs: 150 + rng.IntN(29)})
 	default:
 		switch rng.IntN(4) {
 		case 0:
